@@ -107,6 +107,15 @@ CLAIMED = {
         ref='DESIGN.md §6 C07', note='The global preservation theorem (run-time invariant static scopes = parent chain through every operator) is proved on the prototype calculus only '
              '(notes/prototypes/lean/Res2.lean); on the full model it is covered by the twin differential. Defines created by run-time eval and then read statically are outside the quantifier.',
         technique='Lean 4 proof (cell-identity of resolved vs dynamic access on the frame heap; soundness of the annotation) + twin-interpreter differential'),
+    'C09': dict(
+        text='Theorems over unbounded Int/Nat (any width): add/sub/mul_exact, sum_exact, prod_exact, mod_floor, cmp_exact, exp_exact, slice_bit '
+             '(x[i] = floor(x/2^i) mod 2), slice_range (x[h:l] = floor(x/2^l) mod 2^(h-l+1)), slice_reassemble, convertBin_value (the numeral '
+             'of v padded to >= w digits), signal_value_exact (a purely binary bit string reads as its numeral at any width), kernel-evaluated '
+             'instances of bits->sint and of the two\'s-complement bit operations beyond 64 bits. Correspondence: operand tuples up to 256 bits '
+             '(literal, variable and trace-signal operands); oracle = Python arbitrary-precision integers.',
+        ref='DESIGN.md §6 C09', note='slice theorems are stated for non-negative x (two\'s-complement negatives by instances + correspondence); bits->sint and string<->int round trips '
+             'are covered by instances and the correspondence, not by a general theorem.',
+        technique='Lean 4 proof (bit-level extensionality, numeral lemmas) + correspondence against big-integer oracle'),
 }
 
 REASONS_PENDING = 'check under construction in this round (DESIGN.md §13 build order); not a claim of inapplicability'
